@@ -158,6 +158,10 @@ def run(tier, replay=None):
         elif e.get('result') == 'err' and e.get('err_kind') == 'InvalidSize':
             chk.violation({'check': 'canonical-rejected-invalid-size', 'flavour': env.key, 'object': o.name},
                           {'vector': v['id'], 'body_len': blen, 'event': e, 'hex': v['hex'][:200]})
+        elif e.get('result') == 'err' and e.get('err_kind') == 'AllocationTooLarge':
+            # the allocation guards multiply a count by a derived element size: a canonical encoding must pass them too
+            chk.violation({'check': 'canonical-rejected-allocation-guard', 'flavour': env.key, 'object': o.name},
+                          {'vector': v['id'], 'body_len': blen, 'event': e, 'hex': v['hex'][:200]})
         else:
             chk.count('vector-within-bounds')
     chk.extra['canonical_vectors_checked'] = nv
